@@ -36,6 +36,8 @@ static char const* type_name(aux::packet::type_t t)
 	}
 }
 
+void describe_packet(char const* tag, std::string const& name, aux::packet const& p);
+
 static std::string ep_str(ip::udp::endpoint const& ep)
 {
 	std::string a = ep.address().to_string();
@@ -79,6 +81,68 @@ void dropper_sink::incoming_packet(aux::packet p)
 	forward_packet(std::move(p));
 }
 
+static aux::packet::type_t type_of(std::string const& s)
+{
+	if (s == "syn") return aux::packet::type_t::syn;
+	if (s == "synack") return aux::packet::type_t::syn_ack;
+	if (s == "ack") return aux::packet::type_t::ack;
+	if (s == "err") return aux::packet::type_t::error;
+	if (s == "payload") return aux::packet::type_t::payload;
+	return aux::packet::type_t::uninitialized;
+}
+
+static std::vector<std::string> split_commas(std::string const& l)
+{
+	std::vector<std::string> r;
+	std::size_t pos = 0;
+	while (pos < l.size())
+	{
+		std::size_t c = l.find(',', pos);
+		if (c == std::string::npos) c = l.size();
+		if (c > pos) r.push_back(l.substr(pos, c - pos));
+		pos = c + 1;
+	}
+	return r;
+}
+
+aux::packet World::make_packet(std::vector<std::string> const& route_names, std::uint64_t id
+	, std::string const& type, int len, int ovh, bool cb, std::string const& from)
+{
+	aux::packet p;
+	p.type = type_of(type);
+	p.seq_nr = id;
+	p.overhead = ovh;
+	p.buffer.resize(std::size_t(len));
+	for (int i = 0; i < len; ++i) p.buffer[std::size_t(i)] = std::uint8_t((id + std::uint64_t(i)) & 0xff);
+	std::size_t colon = from.rfind(':');
+	if (colon != std::string::npos)
+		p.from = ip::udp::endpoint(ip::make_address(from.substr(0, colon))
+			, static_cast<unsigned short>(std::atoi(from.c_str() + colon + 1)));
+	p.hops = cfg->make_route(route_names);
+	if (cb)
+	{
+		p.drop_fun = [](aux::packet q) { describe_packet("B", "cb", q); };
+	}
+	return p;
+}
+
+void echo_sink::incoming_packet(aux::packet p)
+{
+	aux::packet r = m_w.make_packet(m_route, 100000 + p.seq_nr, m_type, m_len, m_ovh, false, "0.0.0.0:0");
+	forward_packet(std::move(r));
+}
+
+bool World::op_inject(std::string const& ctx, toks const& op)
+{
+	if (op[0] != "inject") return false;
+	aux::packet p = make_packet(split_commas(kv(op, "route", "")), std::uint64_t(kvi(op, "id", 0))
+		, kv(op, "type", "payload"), int(kvi(op, "len", 0)), int(kvi(op, "ovh", 20))
+		, kvi(op, "cb", 0) != 0, kv(op, "from", "0.0.0.0:0"));
+	forward_packet(std::move(p));
+	emit("C %s %s => -", ctx.c_str(), join(op, 0).c_str());
+	return true;
+}
+
 // ---- configuration -----------------------------------------------------------
 
 void HConfig::build(simulation& s)
@@ -118,6 +182,15 @@ void HConfig::build(simulation& s)
 				pos = c + 1;
 			}
 			hops[name] = std::make_shared<dropper_sink>(m_w, name, which);
+		}
+		else if (kind == "hole")
+		{
+			hops[name] = std::make_shared<hole_sink>();
+		}
+		else if (kind == "echo")
+		{
+			hops[name] = std::make_shared<echo_sink>(m_w, name, split_commas(kv(d, "route", ""))
+				, kv(d, "type", "ack"), int(kvi(d, "len", 0)), int(kvi(d, "ovh", 20)));
 		}
 		else throw std::runtime_error("unknown hop kind " + kind);
 	}
@@ -306,6 +379,7 @@ std::function<void(boost::system::error_code const&)> World::make_h(std::string 
 void World::exec_op(std::string const& ctx, toks const& op)
 {
 	if (op_kernel(ctx, op)) return;
+	if (op_inject(ctx, op)) return;
 	if (op_net(ctx, op)) return;
 	emit("C %s %s => bad-op", ctx.c_str(), join(op, 0).c_str());
 }
